@@ -17,6 +17,7 @@ def run(rep):
     import c10
     c10.v5(rep, w, 'U4')      # index arithmetic on program-chosen integers cannot overflow (-inf / isize::MIN boundary)
     u5(rep, w)
+    u6(rep, w)
 
 
 def u1(rep, w):
@@ -124,9 +125,21 @@ def u2(rep, w):
     cmps = [s['r']['op'] for b in mb.blocks for s in b['s'] if s.get('r', {}).get('rv') == 'bin' and s['r']['op'] in ('Lt', 'Ge', 'Gt', 'Le')]
     r.check(cmps.count('Lt') >= 3 and 'Ge' in cmps and 'Gt' in cmps, 'make_bounded_range: 0 <= begin < limit, 0 <= end <= limit, end >= begin',
             'make_bounded_range comparisons changed: %s' % cmps, mb.loc())
-    vi = w.require_fn('yarel::utils::validate_integer', 'C13')
-    tr = any(strip_generics(callee_name(t) or '').endswith('f64::trunc') for _, t in vi.calls())
-    r.check(tr, 'validate_integer rejects fractional numbers (trunc() != n)', 'validate_integer no longer compares with trunc()', vi.loc())
+    validate_integer_shape(r, w, 'C13')
+
+
+def validate_integer_shape(r, w, prop):
+    """integrality is decided by comparing the number with an integral rounding of itself: that classifies +-inf as integral (they
+    then saturate and are refused by the range test as IndexError) and NaN as non-integral. A test on fract() differs exactly at
+    +-inf (inf.fract() is NaN), which changes the error class of `v[1/0]` and rejects `0..inf`."""
+    vi = w.require_fn('yarel::utils::validate_integer', prop)
+    ROUND = ('f64::trunc', 'f64::floor', 'f64::ceil', 'f64::round')
+    rounds = [bi for bi, t in vi.calls() if strip_generics(callee_name(t) or '').endswith(ROUND)]
+    fr = [bi for bi, t in vi.calls() if strip_generics(callee_name(t) or '').endswith(('f64::fract', 'f64::rem_euclid'))]
+    rem = [1 for b in vi.blocks for s in b['s'] if s.get('r', {}).get('rv') == 'bin' and s['r']['op'] == 'Rem']
+    cmp_ = [s for b in vi.blocks for s in b['s'] if s.get('r', {}).get('rv') == 'bin' and s['r']['op'] in ('Ne', 'Eq')]
+    r.check(bool(rounds) and bool(cmp_) and not fr and not rem, 'validate_integer: integral iff n == trunc/floor/ceil/round(n)',
+            'validate_integer no longer decides integrality by comparing n with an integral rounding of n (roundings %d, fract/rem tests %d): the two differ for +-inf' % (len(rounds), len(fr) + len(rem)), vi.loc())
 
 
 def u3(rep, w):
@@ -291,3 +304,45 @@ def u5(rep, w):
         if len(a) == 3 and a[1] and a[2]:
             built = {q[0] for q in forg.get(a[1]['l'], ())} == {('arg', 2)} and {q[0] for q in forg.get(a[2]['l'], ())} == {('arg', 3)}
     r.check(built, 'a miss creates ObjRange::new(class, begin, end)', 'the new cache entry is not built from the requested (begin, end) in that order', f.loc())
+
+
+def u6(rep, w):
+    """indexing reads the receiver's elements, slicing copies them: `v[a..b]` is a new sequence for every range, including the one
+    that covers the whole receiver (for a Vec the copy is observable: later writes through either name must not show in the other)"""
+    import c12
+    r = rep.rule('U6', 'slice_get_item: a number index yields elements[index]; a range yields a fresh copy of elements[begin..end] for every range (never the receiver itself)', floor=3)
+    f = w.require_fn('yarel::vm::Vm::slice_get_item', 'C13')
+    org = origins(f)
+    sw, _ = c12.discr_switches(f, 'yarel::value::Value')
+    if not sw:
+        raise Broken('C13', 'anchor', 'slice_get_item: match on the index value not found')
+    bi, cases, other, _ = sw[0]
+    dom = f.dominators()
+    res_adt = 'yarel::vm::IndexResult'
+    aggs = [(b, s_) for b in f.normal_blocks() for s_ in f.blocks[b]['s'] if s_.get('r', {}).get('rv') == 'agg' and s_['r'].get('adt') == res_adt]
+    if len(aggs) < 2:
+        raise Broken('C13', 'floor', 'slice_get_item: IndexResult constructions found: %d' % len(aggs))
+
+    def roots(o):
+        pl = op_place(o)
+        return {q[0] for q in org.get(pl['l'], ())} if pl else set()
+    for arm, want in (('ObjRange', 'Slice'), ('Number', 'Scalar')):
+        tb = cases.get(arm)
+        if tb is None:
+            raise Broken('C13', 'anchor', 'slice_get_item: no arm for %s' % arm)
+        here = [(b, s_) for (b, s_) in aggs if tb in dom.get(b, ())]
+        kinds = sorted({s_['r'].get('v') for _, s_ in here})
+        ok = kinds == [want]
+        src_ok = True
+        for _, s_ in here:
+            rs = roots(s_['r']['ops'][0]) if s_['r'].get('ops') else set()
+            # the payload comes out of `elements` (argument 2): through Index (scalar) or through a copying constructor over an indexed sub-slice
+            good = bool(rs) and all(x == ('arg', 2) or (x[0] == 'call' and (x[2].endswith('::from') or x[2].endswith('::to_vec') or x[2].endswith('::index') or 'collect' in x[2] or x[2].endswith('::to_owned'))) for x in rs)
+            copies = want != 'Slice' or any(x[0] == 'call' for x in rs)
+            src_ok = src_ok and good and copies
+        r.check(ok and src_ok, 'slice_get_item / %s index -> %s of elements' % (arm, want),
+                'for a %s index slice_get_item produces %s from %s: expected only IndexResult::%s taken from `elements` (a range must always copy; handing back the receiver makes '
+                '`v[0..v.len()]` an alias of v)' % (arm, kinds, sorted(str(x) for _, s_ in here for x in (roots(s_['r']['ops'][0]) if s_['r'].get('ops') else set()))[:4], want), f.loc())
+    # the Vec caller turns a Slice into a newly allocated vector
+    g = w.require_fn('yarel::vm::Vm::vec_get_item', 'C13')
+    r.check(any(callee_name(t) in ('yarel::vm::Vm::new_root_obj_vec', 'yarel::memory::Root::<T>::new') for _, t in g.calls()) and any(callee_name(t) == 'yarel::object::ObjVec::with_elements' for _, t in g.calls()), 'vec_get_item allocates a new Vec for a slice', 'vec_get_item no longer allocates the slice result', g.loc())
